@@ -7,7 +7,7 @@ import warnings
 
 import numpy as np
 
-from mc import harness
+from mc import harness, seqdiff
 from mc.common import HarnessError, Stats, pmap, safe, shards
 
 PROPERTY = 'C11'
@@ -16,7 +16,7 @@ RULE = ('(A) each constructor alone (multi-value expansion of x / x;y, sub-featu
         '2 rows (quick) / 3 rows (thorough) over {"", a, b, "a,b", "b-a", "{}", ab}; transformations on numeric columns over {"", 1, 2, -1}; '
         '(B) all 2^5 subsets of the construction flags (+ 3MR heuristic) through compute_batch_ranking on frames (x multi-valued, y selector, n numeric, label) with the frame recorded '
         'after every step. Oracle: previous frame is an exact prefix (columns, values, row order), new columns have one non-missing value per row, MULTIEX / SUBFEATURE / CONTROL-target '
-        'rules recomputed, triplet names = columns of the final frame. distinct_nontrivial = (frame, constructor/flag-set) cases that append at least one column')
+        'rules recomputed, triplet names = columns of the final frame; sequence differential over <= 3 successive batches per flag (final frame + triplets vs a pristine process state). distinct_nontrivial = (frame, constructor/flag-set) cases that append at least one column')
 ASSUMPTIONS = ['seed lists whose one-sided entries share the source feature but differ in the selector are outside the alphabet (their column names coincide by construction of the naming scheme)']
 
 CELLS = ['', 'a', 'b', 'a,b', 'b-a', '{}', 'ab']   # token 'ab' contains the tokens 'a' and 'b' (membership must be by token, not by substring)
@@ -336,9 +336,61 @@ def _batch(job):
     return st
 
 
+SEQ_ROWS = [
+    [['a,b', 'u', '1', '0'], ['a', 'v', '2', '1'], ['', 'u', '', '0']],
+    [['b-c', 'v', '2', '1'], ['c', 'w', '5', '1'], ['ab', 'w', '1', '0']],      # new tokens / selector values / numbers
+    [['a', 'u', '', '0'], ['a', 'u', '"7"', '1']],                               # other row count, quoted number, empty
+]
+
+
+def seq_call(x):
+    ri, fl = x
+    C = cr()
+    cols = ['x', 'y', 'n', 'label']
+    kw = dict(heuristic='MI-numba-randomized', target_ranking_only='True')
+    if 'transformers' in fl:
+        kw['transformers'] = 'minimal'
+    if 'multivalue' in fl:
+        kw['explode_multivalue_features'] = 'x'
+    if 'subfeatures' in fl:
+        kw['subfeature_mapping'] = 'x->y'
+    if 'interaction' in fl:
+        kw['interaction_order'] = 2
+    if 'noise' in fl:
+        kw['include_noise_baseline_features'] = 'True'
+    args = harness.make_args(**kw)
+    frames = {}
+    orig_cov = C.compute_coverage
+
+    def cov(df, a):
+        # CONTROL-volume hashes the textual rendering of a whole row, which legitimately depends on the column order chosen by the (stateful) fair sampler
+        frames['final'] = {c: [str(v) for v in df[c].tolist()] for c in df.columns if c != 'CONTROL-volume'}
+        return orig_cov(df, a)
+
+    C.compute_coverage = cov
+    try:
+        with warnings.catch_warnings():
+            warnings.simplefilter('ignore')
+            with np.errstate(all='ignore'):
+                res = C.compute_batch_ranking([list(r) for r in SEQ_ROWS[ri]], {'n'}, args, harness.InlinePool(), cols, harness.RecLogger(), harness.NullBar())
+    finally:
+        C.compute_coverage = orig_cov
+    return {'frame': frames.get('final'), 'triplets': sorted((a, b, round(float(s), 7)) for a, b, s in res[0].triplet_scores if 'CONTROL-volume' not in (a, b))}
+
+
+def seq_menu(fl):
+    return [(ri, tuple(fl)) for ri in range(len(SEQ_ROWS))]
+
+
+def _seqdiff(fl):
+    st = Stats()
+    seqdiff.run(seq_call, seq_menu(fl), 3, st, lambda seq, pos: {'kind': 'seqdiff', 'flags': list(fl), 'seq': list(seq)}, {'kind': 'history_dependent', 'flags': '+'.join(fl)})
+    return st
+
+
 def _dispatch(item):
     k, job = item
-    return {'alone': _alone, 'tr': _transform_alone, 'batch': _batch}[k](job)
+    return {'alone': _alone, 'tr': _transform_alone, 'batch': _batch, 'seqdiff': _seqdiff}[k](job)
 
 
 def run(ctx):
@@ -352,6 +404,7 @@ def run(ctx):
     else:
         jobs += [('batch', (2, lo, hi, ('MI-numba-randomized',))) for lo, hi in shards(18 ** 2, 48)]
         jobs += [('batch', (1, lo, hi, ('MI-numba-3mr',))) for lo, hi in shards(18, 6)]
+    jobs += [('seqdiff', fl) for fl in (('transformers',), ('multivalue',), ('subfeatures',), ('interaction',), ('noise',), tuple(FLAGS))]
     for st in pmap(_dispatch, jobs):
         ctx.stats.merge(st)
     ctx.extra['rows_alone'] = nrows
@@ -360,6 +413,8 @@ def run(ctx):
 
 
 def eval_case(case):
+    if case['kind'] == 'seqdiff':
+        return seqdiff.replay(seq_call, seq_menu(tuple(case['flags'])), case['seq'])
     if case['kind'] == 'alone':
         fails, _ = judge_constructor(case['constructor'], case['columns'], case['rows'])
     else:
